@@ -85,6 +85,9 @@ def synth_library(rng, idx):
     u = rng.choice(["", "", "_%d" % rng.randint(1, 3)])
     prefix = rng.choice(PREFIXES)
     lines = list(COPYRIGHT)
+    if idx % 3 == 1:
+        # copyright text is copied verbatim: braces, percent signs and names of would-be fields included
+        lines = ["copyright:", "- Copyright (c) {year} {user}@{host}, %Y-%m-%d, 100%", "- Synthetic library for simulation", "-"]
     lines += ["library: %s" % lib, "cxx_header: %s.hpp" % lib.lower(), "language: %s" % lang]
     if prefix:
         lines += ["format:", "  C_prefix: %s" % prefix]
